@@ -613,27 +613,44 @@ Lemma rates_closed_form :
   forall t : trow,
     let q := fun z : Z => inject_Z z in
     let rate := fun name => match lookup_rate name rate_defs with Some e => aeval t e | None => None end in
-    rate "precision"%string = (if Qeq_bool (q (TP t) + q (FP t)) 0 then Some 1%Q
-                               else Some (q (TP t) / (q (TP t) + q (FP t)))%Q) /\
-    rate "recall"%string = (if Qeq_bool (q (P t)) 0 then None else Some (q (TP t) / q (P t))%Q) /\
-    rate "specificity"%string = (if Qeq_bool (q (N t)) 0 then None else Some (q (TN t) / q (N t))%Q) /\
-    rate "npv"%string = (if Qeq_bool (q (TN t) + q (FN t)) 0 then Some 1%Q
-                         else Some (q (TN t) / (q (TN t) + q (FN t)))%Q) /\
-    rate "accuracy"%string = (if Qeq_bool (q (P t) + q (N t)) 0 then None
-                              else Some ((q (TP t) + q (TN t)) / (q (P t) + q (N t)))%Q) /\
-    rate "f1"%string = (if Qeq_bool (inject_Z 2 * q (TP t) + q (FN t) + q (FP t)) 0 then None
-                        else Some (inject_Z 2 * q (TP t) / (inject_Z 2 * q (TP t) + q (FN t) + q (FP t)))%Q) /\
-    rate "tp_rate"%string = rate "recall"%string /\
-    rate "tn_rate"%string = rate "specificity"%string /\
-    rate "fp_rate"%string = (if Qeq_bool (q (N t)) 0 then None else Some (q (FP t) / q (N t))%Q) /\
-    rate "fn_rate"%string = (if Qeq_bool (q (P t)) 0 then None else Some (q (FN t) / q (P t))%Q).
+    let TPq := q (TP t) in let TNq := q (TN t) in let FPq := q (FP t) in let FNq := q (FN t) in
+    let Pq := q (P t) in let Nq := q (N t) in let Tq := q (total t) in
+    let div := fun a b : Q => if Qeq_bool b 0 then None else Some (a / b)%Q in
+    rate "P_rate"%string = div Pq Tq /\
+    rate "N_rate"%string = div Nq Tq /\
+    rate "tp_rate"%string = div TPq Pq /\
+    rate "tn_rate"%string = div TNq Nq /\
+    rate "fp_rate"%string = div FPq Nq /\
+    rate "fn_rate"%string = div FNq Pq /\
+    rate "precision"%string = (if Qeq_bool (TPq + FPq)%Q 0 then Some 1%Q else Some (TPq / (TPq + FPq))%Q) /\
+    rate "recall"%string = div TPq Pq /\
+    rate "specificity"%string = div TNq Nq /\
+    rate "npv"%string = (if Qeq_bool (TNq + FNq)%Q 0 then Some 1%Q else Some (TNq / (TNq + FNq))%Q) /\
+    rate "accuracy"%string = div (TPq + TNq)%Q (Pq + Nq)%Q /\
+    rate "f1"%string = div (inject_Z 2 * TPq)%Q (inject_Z 2 * TPq + FNq + FPq)%Q /\
+    rate "f2"%string = div (inject_Z 5 * TPq)%Q (inject_Z 5 * TPq + inject_Z 4 * FNq + FPq)%Q /\
+    rate "f0_5"%string = div ((5 # 4) * TPq)%Q ((5 # 4) * TPq + (1 # 4) * FNq + FPq)%Q /\
+    rate "p4"%string = div (inject_Z 4 * TPq * TNq)%Q (inject_Z 4 * TPq * TNq + (TPq + TNq) * (FPq + FNq))%Q /\
+    rate "phi"%string =
+      (if Qeq_bool (TNq + FNq)%Q 0 || Qeq_bool (TPq + FPq)%Q 0 || Qeq_bool Pq 0 || Qeq_bool Nq 0 then Some 0%Q
+       else match Qsqrt_exact ((TPq + FPq) * Pq * Nq * (TNq + FNq))%Q with
+            | Some s => div (TPq * TNq - FPq * FNq)%Q s
+            | None => None          (* irrational square root: outside the exact model, compared numerically in X *)
+            end).
 Proof.
   intros t. cbv zeta. unfold lookup_rate, rate_defs. cbn [String.eqb Ascii.eqb Bool.eqb].
-  cbn [aeval existsb V C var_of]. rewrite ?orb_false_r. repeat split.
-  - change (var_of t vTP) with (inject_Z (TP t)). change (var_of t vFP) with (inject_Z (FP t)).
-    destruct (Qeq_bool (inject_Z (TP t) + inject_Z (FP t)) 0); reflexivity.
-  - change (var_of t vTN) with (inject_Z (TN t)). change (var_of t vFN) with (inject_Z (FN t)).
-    destruct (Qeq_bool (inject_Z (TN t) + inject_Z (FN t)) 0); reflexivity.
+  cbn [aeval existsb V C var_of]. rewrite ?orb_false_r.
+  change (var_of t vTP) with (inject_Z (TP t)). change (var_of t vTN) with (inject_Z (TN t)).
+  change (var_of t vFP) with (inject_Z (FP t)). change (var_of t vFN) with (inject_Z (FN t)).
+  change (var_of t vP) with (inject_Z (P t)). change (var_of t vN) with (inject_Z (N t)).
+  change (var_of t vTotal) with (inject_Z (total t)).
+  repeat split.
+  - destruct (Qeq_bool (inject_Z (TP t) + inject_Z (FP t))%Q 0); reflexivity.
+  - destruct (Qeq_bool (inject_Z (TN t) + inject_Z (FN t))%Q 0); reflexivity.
+  - rewrite <- !orb_assoc.
+    destruct (Qeq_bool (inject_Z (TN t) + inject_Z (FN t))%Q 0 || (Qeq_bool (inject_Z (TP t) + inject_Z (FP t))%Q 0
+              || (Qeq_bool (inject_Z (P t)) 0 || Qeq_bool (inject_Z (N t)) 0))); [reflexivity|].
+    destruct (Qsqrt_exact ((inject_Z (TP t) + inject_Z (FP t)) * inject_Z (P t) * inject_Z (N t) * (inject_Z (TN t) + inject_Z (FN t)))%Q); reflexivity.
 Qed.
 
 (* ================================================================== invariance (C13) *)
@@ -761,4 +778,148 @@ Proof.
   { unfold block_from_labels. rewrite L1. generalize (lower_id_to_left_hand_side ls) as ys. intros ys.
     induction ys as [|y t IH]; [reflexivity|]. cbn [map flat_map]. rewrite map_app, <- IH. f_equal. apply L3. }
   rewrite Hb, map_map. apply map_ext. intros x. cbn [relabel id_l id_r cms]. rewrite Hs, Hf. reflexivity.
+Qed.
+
+(* ================================================================== prediction errors vs the truth table *)
+Definition erow_of (probf : lrow -> Q) (r : lrow) : erow :=
+  {| e_key := 0%nat; e_cms := clerical r; e_prob := probf r; e_found := found r |}.
+Definition is_status (s : status) (x : erow * option status) : bool :=
+  match snd x, s with Some StFP, StFP => true | Some StFN, StFN => true | _, _ => false end.
+
+Lemma countZ_map' {A B} (q : B -> bool) (g : A -> B) l : countZ q (map g l) = countZ (fun x => q (g x)) l.
+Proof. unfold countZ. rewrite filter_map_swap, map_length. reflexivity. Qed.
+Lemma countZ_filter' {A} (p q : A -> bool) l : countZ p (filter q l) = countZ (fun x => p x && q x) l.
+Proof. unfold countZ. rewrite filter_filter_and. reflexivity. Qed.
+
+Section ErrorsVsTable.
+  Variable column_mode : bool.
+  Variable t : Q.
+  Let fn := if column_mode then false_negative_column t else false_negative_table t.
+
+  Lemma count_returned_fp es :
+    countZ (is_status StFP) (prediction_errors column_mode true true t es)
+    = countZ (fun e => isT (false_positive t e)) es.
+  Proof.
+    unfold prediction_errors. rewrite countZ_map', countZ_filter'. apply countZ_ext. intros e _.
+    unfold is_status, truth_status, where_condition. cbn [snd]. rewrite isT_or3.
+    destruct (isT (false_positive t e)); [reflexivity|].
+    destruct (isT ((if column_mode then false_negative_column t else false_negative_table t) e)); reflexivity.
+  Qed.
+  Lemma count_returned_fn es :
+    countZ (is_status StFN) (prediction_errors column_mode true true t es)
+    = countZ (fun e => isT (fn e)) es.
+  Proof.
+    unfold prediction_errors. rewrite countZ_map', countZ_filter'. apply countZ_ext. intros e _.
+    unfold is_status, truth_status, where_condition, fn. cbn [snd]. rewrite isT_or3.
+    destruct (isT (false_positive t e)) eqn:E.
+    - rewrite (fp_fn_disjoint column_mode t e E). reflexivity.
+    - destruct (isT ((if column_mode then false_negative_column t else false_negative_table t) e)); reflexivity.
+  Qed.
+End ErrorsVsTable.
+
+(* pointwise: with a non-NULL clerical score the FP condition of prediction_errors IS the truth
+   table's "clerical negative and predicted positive" as soon as the row threshold separates the
+   pairs exactly as match_probability > t does *)
+Lemma fp_pointwise t probf (pred : lrow -> bool) r c :
+  clerical r = Some c ->
+  pred r = negb (Qle_bool (probf r) t) ->
+  isT (false_positive t (erow_of probf r)) = negb (is_pos t r) && pred r.
+Proof.
+  intros Hc Hp. unfold false_positive, oq_lt, q_lt, is_pos, erow_of. cbn [e_cms e_prob]. rewrite Hc, Hp.
+  rewrite isT_and3, !isT_of_bool. reflexivity.
+Qed.
+Lemma Qleb_antisym_bool a b : ~ (a == b)%Q -> Qle_bool a b = negb (Qle_bool b a).
+Proof.
+  intros Hne. destruct (Qle_bool a b) eqn:E1, (Qle_bool b a) eqn:E2; try reflexivity.
+  - apply Qle_bool_iff in E1. apply Qle_bool_iff in E2. exfalso. apply Hne. apply Qle_antisym; assumption.
+  - destruct (Qleb_total a b); congruence.
+Qed.
+Lemma fn_pointwise column_mode t probf (pred : lrow -> bool) r c :
+  clerical r = Some c -> ~ (c == t)%Q -> ~ (probf r == t)%Q ->
+  pred r = negb (Qle_bool (probf r) t) ->
+  (column_mode = true -> found r = false -> pred r = false) ->
+  isT ((if column_mode then false_negative_column t else false_negative_table t) (erow_of probf r))
+  = is_pos t r && negb (pred r).
+Proof.
+  intros Hc Hct Hpt Hp Hu. unfold is_pos. rewrite Hc.
+  assert (E1 : negb (Qle_bool c t) = Qle_bool t c) by (rewrite (Qleb_antisym_bool c t Hct), negb_involutive; reflexivity).
+  assert (E2 : negb (Qle_bool t (probf r)) = Qle_bool (probf r) t).
+  { rewrite (Qleb_antisym_bool t (probf r)), negb_involutive; [reflexivity|]. intros E. apply Hpt. symmetry. exact E. }
+  destruct column_mode.
+  - unfold false_negative_column, oq_gt, q_lt, erow_of. cbn [e_cms e_prob e_found]. rewrite Hc.
+    rewrite isT_or3, !isT_and3, !isT_of_bool, E1, E2, Hp, negb_involutive.
+    destruct (found r) eqn:Ef; cbn [negb]; [rewrite andb_false_r, orb_false_r; reflexivity|].
+    specialize (Hu eq_refl eq_refl). rewrite Hp in Hu. apply negb_false_iff in Hu. rewrite Hu.
+    destruct (Qle_bool t c); reflexivity.
+  - unfold false_negative_table, oq_gt, q_lt, erow_of. cbn [e_cms e_prob]. rewrite Hc.
+    rewrite isT_and3, !isT_of_bool, E1, E2, Hp, negb_involutive. reflexivity.
+Qed.
+
+(* THE BRIDGE: at a reported row whose threshold separates the pairs exactly as
+   match_probability > t does, with no NULL label and no tie at t, the rows prediction_errors
+   returns as FP / FN are as many as the truth table's FP / FN of that row *)
+Lemma prediction_errors_match_truth_table column_mode t rnd zero_unfound total_labels rows probf row :
+  In row (truth_space_table t rnd zero_unfound total_labels rows) ->
+  (column_mode = true -> zero_unfound = true) ->
+  (forall r, In r rows -> Qle_bool (thr row) (adj_score rnd zero_unfound r) = negb (Qle_bool (probf r) t)) ->
+  (forall r, In r rows -> exists c, clerical r = Some c /\ ~ (c == t)%Q) ->
+  (forall r, In r rows -> ~ (probf r == t)%Q) ->
+  let returned := prediction_errors column_mode true true t (map (erow_of probf) rows) in
+  countZ (is_status StFP) returned = FP row /\ countZ (is_status StFN) returned = FN row.
+Proof.
+  intros Hrow Hcm Hsep Hlab Hprob. cbv zeta.
+  destruct (table_row_recount _ _ _ _ _ row Hrow) as (_ & HFP & HFN & _).
+  rewrite count_returned_fp, count_returned_fn, !countZ_map', HFP, HFN. split.
+  - apply countZ_ext. intros r Hr. destruct (Hlab r Hr) as (c & Hc & _).
+    apply (fp_pointwise t probf (fun r0 => Qle_bool (thr row) (adj_score rnd zero_unfound r0)) r c Hc (Hsep r Hr)).
+  - apply countZ_ext. intros r Hr. destruct (Hlab r Hr) as (c & Hc & Hct).
+    apply (fn_pointwise column_mode t probf (fun r0 => Qle_bool (thr row) (adj_score rnd zero_unfound r0)) r c Hc Hct (Hprob r Hr) (Hsep r Hr)).
+    intros Hcol Hf. rewrite (Hcm Hcol) in *. eapply unfound_predicted_negative; eauto.
+Qed.
+
+(* ... and exactly what happens where the hypotheses fail *)
+Lemma prediction_errors_ties_and_nulls t e :
+  (e_cms e = None -> isT (false_positive t e) = false /\ isT (false_negative_table t e) = false
+                     /\ isT (false_negative_column t e) = false) /\
+  (forall c, e_cms e = Some c -> (c == t)%Q ->
+     isT (false_positive t e) = false /\ isT (false_negative_table t e) = false /\ isT (false_negative_column t e) = false) /\
+  ((e_prob e == t)%Q ->
+     isT (false_positive t e) = false /\ isT (false_negative_table t e) = false /\
+     (isT (false_negative_column t e) = true <-> exists c, e_cms e = Some c /\ (t < c)%Q /\ e_found e = false)).
+Proof.
+  split; [|split].
+  - intros Hn. unfold false_positive, false_negative_table, false_negative_column, oq_lt, oq_gt. rewrite Hn.
+    rewrite isT_or3, !isT_and3. cbn. auto.
+  - intros c Hc Hq. unfold false_positive, false_negative_table, false_negative_column, oq_lt, oq_gt. rewrite Hc.
+    rewrite isT_or3, !isT_and3, !isT_of_bool.
+    assert (A : Qle_bool t c = true) by (apply Qle_bool_iff; rewrite Hq; apply Qle_refl).
+    assert (B : Qle_bool c t = true) by (apply Qle_bool_iff; rewrite Hq; apply Qle_refl).
+    rewrite A, B. cbn. auto.
+  - intros Hq.
+    assert (A : Qle_bool t (e_prob e) = true) by (apply Qle_bool_iff; rewrite Hq; apply Qle_refl).
+    assert (B : Qle_bool (e_prob e) t = true) by (apply Qle_bool_iff; rewrite Hq; apply Qle_refl).
+    split; [|split].
+    + unfold false_positive, q_lt. rewrite isT_and3, isT_of_bool, B. cbn. apply andb_false_r.
+    + unfold false_negative_table, q_lt. rewrite isT_and3, isT_of_bool, A. cbn. apply andb_false_r.
+    + rewrite false_negative_column_iff. split.
+      * intros (c & Hc & Hlt & [Hp|Hf]); [|eauto]. exfalso. rewrite Hq in Hp. eapply Qlt_irrefl; eauto.
+      * intros (c & Hc & Hlt & Hf). eauto.
+Qed.
+
+(* ================================================================== rate trees *)
+Lemma aexp_eqb_eq : forall a b, aexp_eqb a b = true -> a = b.
+Proof.
+  fix IH 1. intros a b. destruct a, b; cbn [aexp_eqb]; try discriminate; intros H.
+  - destruct v, v0; try discriminate; reflexivity.
+  - destruct q as [n d], q0 as [n' d']. unfold Q_syn_eqb in H. cbn in H. apply andb_true_iff in H. destruct H as [H1 H2].
+    apply Z.eqb_eq in H1. apply Pos.eqb_eq in H2. subst. reflexivity.
+  - apply andb_true_iff in H. destruct H as [H1 H2]. f_equal; apply IH; assumption.
+  - apply andb_true_iff in H. destruct H as [H1 H2]. f_equal; apply IH; assumption.
+  - apply andb_true_iff in H. destruct H as [H1 H2]. f_equal; apply IH; assumption.
+  - apply andb_true_iff in H. destruct H as [H1 H2]. f_equal; apply IH; assumption.
+  - f_equal. apply IH. exact H.
+  - apply andb_true_iff in H. destruct H as [H H3]. apply andb_true_iff in H. destruct H as [H1 H2].
+    f_equal; [|apply IH; assumption|apply IH; assumption].
+    revert zs0 H1. induction zs as [|x l IHl]; intros [|y m] Hgo; try discriminate; [reflexivity|].
+    apply andb_true_iff in Hgo. destruct Hgo as [Hx Hl]. f_equal; [apply IH; exact Hx|apply IHl; exact Hl].
 Qed.
